@@ -18,7 +18,8 @@ func init() {
 		ID: "C13",
 		Rule: "gradient monitor of MSE / BCE / CE: (i) prediction as a tracked leaf, batch 1..8 x classes 1..5, prediction elements from {exactly 0, exactly 1, interior, strictly inside but within 1e-9 of a clipping bound, equal to the target}, targets from {0, 1, soft}, target tracked or not, prediction untracked as a control; after BackPropagate(loss) the prediction's gradient must have its shape and equal 2(p-t)/N, ((1-t)/(1-p)-t/p)/N, -(t/p)/N at interior points and a finite exact 0 where the prediction is clipped; untracked inputs keep nil. " +
 			"(ii) prediction computed by a random upstream tracked program (C01 generator) squashed through Tanh/Scale/Sigmoid: every leaf and every intermediate of the whole graph is compared with the reference tape seeded with the closed form. (iii) ONE loss object is used for 2-4 consecutive Compute/BackPropagate rounds of equal shapes. " +
-			"Non-trivial: the case has a clipped prediction, a soft target, an upstream program or a repeated round; distinct = (loss, batch, classes, variant, value classes present). Later additions: predictions 1..4000 units in the last place above or below either clipping bound; comparison of upstream programs judged against the tape run on absolute values.",
+			"Non-trivial: the case has a clipped prediction, a soft target, an upstream program or a repeated round; distinct = (loss, batch, classes, variant, value classes present). Later additions: predictions 1..4000 units in the last place above or below either clipping bound; comparison of upstream programs judged against the tape run on absolute values." +
+			" Round 4: Compute must leave the tracking state, gradient object and elements of both arguments unchanged.",
 		Assumptions: []string{
 			"predictions exactly at the two clipping bounds 1e-12 and 1-1e-12 are excluded, as in the statement",
 			"tolerance of the leaf variant: 1e-9 relative + the conditioning bound 4e-16 x ((1-t)/(1-p)^2 + t/p^2)/N of the closed form; upstream programs keep p in (0.002, 0.998)",
@@ -118,13 +119,20 @@ func c13Leaf(k *fw.K, kind string, b, cl int) {
 		rp, rtt := rt.MustLeaf(p, trackP), rt.MustLeaf(t, trackT)
 		var l tensor.Tensor
 		var err error
+		argMsg := ""
 		if pn := call(func() {
+			guard := argGuard(rp, rtt)
 			l, err = obj.Compute(rp, rtt)
 			if err == nil {
+				argMsg = guard()
 				err = tensor.BackPropagate(l)
 			}
 		}); pn != nil || err != nil {
 			k.Failf("round %d: %s Compute/BackPropagate failed: panic=%v err=%v", round, kind, pn, err)
+			return
+		}
+		if argMsg != "" {
+			k.Failf("round %d: %s.Compute changed an argument tensor (tracked prediction=%v target=%v): %s", round, kind, trackP, trackT, argMsg)
 			return
 		}
 		k.Count("rounds", 1)
